@@ -284,6 +284,9 @@ def check(sc, r):
     if st and "error" not in st and lab not in dead:
         if st.get("alive") or st.get("dul_alive"):
             out.append(C.v("no-hang", "C02/thread-left/%s" % sc["state"], "threads still alive at the end: %s" % st))
+    # "reacts per the state machine": whatever was received, the provider ends idle (Sta1) with the transport
+    # connection closed - not stopped dead by an internal error handler with the state machine by-passed
+    out += L.check_back_to_idle(ID, r, dead)
     # a conformant probe that is the first probe must not be classified as invalid (Evt19) in the state where it is delivered
     pr = sc["probes"][0]
     if pr["cls"] == "a" and len(sc["probes"]) == 1 and sc["state"] in ("sta2", "sta6", "sta5"):
